@@ -20,7 +20,7 @@ RULE = ('seeded generator: random apertures 4..22 per side and random partitions
 ASSUMPTIONS = ['segments of one plane are pairwise disjoint (a partition)']
 PLAN = {'quick': {'gen': 8}, 'thorough': {'gen': 16, 'tests': 1}}
 REQUIRED_BUCKETS = ['k=1', 'k=2', 'k=3-8', 'bbox-overlap', 'style:stripes', 'style:blobs', 'style:interleaved',
-                    'chain:1', 'chain:2', 'chain:2-segmented', 'propagated', 'padded', 'tilt-chain', 'segment-tilts']
+                    'chain:1', 'chain:2', 'chain:2-segmented', 'propagated', 'padded', 'tilt-chain', 'segment-tilts', 'fitted-vs-global']
 REQUIRED_ANCHORS = ['probe:propagate_dft', 'anchor:Plane.multiply', 'anchor:slice_offset', 'anchor:boundary_slice',
                     'anchor:field.reduce', 'anchor:field._merge']
 REQUIRED_ORACLES = ['seg=mono:field', 'seg=mono:intensity', 'seg=mono:propagated', 'coherent-sum', 'pad=embed',
@@ -217,6 +217,25 @@ def workload(ctx, lentil):
                 ctx.close('coherent-sum', inten, coh, TOL, 'coherent|segment-tilts',
                           'segment images on different (overlapping) windows are not added coherently', desc,
                           scale=max(float(coh.max()) if coh.size else 0, 1e-300))
+                # the same optics as ONE global mask with the tilts left in the OPD (nothing fitted): wherever every
+                # segment's displaced window and the monolithic window were evaluated, the complex fields must agree
+                pm = lentil.Pupil(amplitude=amp, opd=opdt, mask=A.astype(float), pixelscale=dx, focal_length=z)
+                om2 = lentil.propagate_dft(lentil.Wavefront(wl) * pm, du, shape=oshape, prop_shape=psm, oversample=os_)
+                sets = [rm.coordset(f.data.shape, f.offset) for f in oft.data if f.data.size] + \
+                       [rm.coordset(f.data.shape, f.offset) for f in om2.data if f.data.size]
+                if len([f for f in oft.data if f.data.size]) == k and sets:
+                    common = set.intersection(*sets) & rm.coordset(Sx, (0, 0))
+                    if common:
+                        pts = np.array(sorted(common))
+                        with probe.quiet():
+                            fa, fb = om2.field, oft.field
+                        ia, ja = pts[:, 0] + Sx[0] // 2, pts[:, 1] + Sx[1] // 2
+                        mref = propmodel.expected_dft(lentil.Wavefront(wl) * pm, propmodel.bind_dft((None, du), dict(shape=oshape, oversample=os_)))
+                        t2 = (mref['tol'] * 64 * (1 + k)) if isinstance(mref, dict) and 'tol' in mref else 1e-12
+                        ctx.close('seg=mono:propagated', fb[ia, ja], fa[ia, ja], 1.0, 'fitted-segments-vs-global|field',
+                                  'a segmented aperture with fitted per-segment tilts differs from the same optics under one global mask',
+                                  dict(desc, samples=len(pts)), scale=t2)
+                        ctx.bucket('fitted-vs-global')
             except Exception as e:
                 ctx.check(False, 'coherent-sum', f'segment-tilts|raises={type(e).__name__}', str(e), desc)
 
